@@ -228,10 +228,20 @@ def ensembles_reduce_by_position(ctx):
     ctx.need(loops, 'no scan loop in __update_bestSolver')
     it = ''.join(unparse(loops[0].iter).split())
     tests = [n for n in walk_no_nested(loops[0]) if isinstance(n, ast.If) and isinstance(n.test, ast.Compare)]
-    cmp_ok = bool(tests) and t(tests[0].test) in (T.mk_cmp('<=', ('attr', ('name', 'solver'), 'bestEnergy'), ('name', 'energy')),
-                                                 T.mk_cmp('<', ('attr', ('name', 'solver'), 'bestEnergy'), ('name', 'energy')))
+    # the tie rule must make the outcome a function of the slots alone: with `<=` the last slot holding the minimum wins whatever
+    # the incumbent was; with a strict `<` an incumbent that ties keeps its place, so the answer depends on the history of earlier
+    # reductions (step-wise mode reduces after every step, run-to-completion once)
+    var = loops[0].target.id if isinstance(loops[0].target, ast.Name) else 'solver'
+    bld = T.Builder()
+    for st in loops[0].body:
+        if isinstance(st, ast.Assign) and isinstance(st.targets[0], ast.Name):
+            bld.exec_stmt(st)
+    inc = ('call', ('name', 'getattr'), (('attr', ('name', sn), '_bestSolver'), ('const', 'bestEnergy'), ('attr', ('name', sn), 'bestEnergy')), ())
+    cmp_ok = bool(tests) and T.simp(bld.t(tests[0].test)) == T.mk_cmp('<=', ('attr', ('name', var), 'bestEnergy'), inc)
     ctx.check(it in ('%s._allSolvers[:]' % sn, '%s._allSolvers' % sn) and cmp_ok, 'AbstractEnsembleSolver.__update_bestSolver',
-              'scans all slots in index order, keeps a member under solver.bestEnergy <= incumbent', 'best-member scan is over %s with test %s' % (it, unparse(tests[0].test) if tests else None), h, loops[0])
+              'scans all slots in index order, keeps a member under member.bestEnergy <= incumbent (ties: the last slot wins, independent of the incumbent)',
+              'best-member scan is over %s with test %s: on an exact tie the outcome depends on which member was the incumbent, i.e. on the history of earlier reductions'
+              % (it, unparse(tests[0].test) if tests else None), h, tests[0] if tests else loops[0])
 
 
 @rule('C07.e', min_instances=4)
@@ -302,3 +312,26 @@ def ensemble_query_does_not_resolve_limits_early(ctx):
     ctx.check(bad is None, 'AbstractEnsembleSolver.Terminated#limits-after-member-check', '%d paths: limits are resolved only after the all/None member checks' % n,
               'the ensemble resolves its None limits to defaults before checking that its members exist/terminated; a `while not Terminated(): Step()` loop then '
               'pushes those defaults into every member, unlike Solve(): %s' % (bad[0].describe(6) if bad else ''), f, bad[1] if bad else f.node)
+
+
+@rule('C07.g', min_instances=15)
+def defaults_are_resolved_at_run_time_only(ctx):
+    """no configuration method resolves the default limits: self._SetEvaluationLimits (default = f(nPop, nDim) plus the CURRENT counters) is reachable only from run-time code (Terminated / the wrappers); SetEvaluationLimits records None / the "*" sentinel instead - resolved at configuration time, the bound would depend on which other Set* calls (a monitor replaced with new=True resets the counters) came first"""
+    cg = ctx.cg
+    n = 0
+    for name in CONFIG_METHODS:
+        for k, f in _impls(ctx, name):
+            ctx.touch(f)
+
+            def eff(g):
+                sn = selfname_of(g)
+                return [c for c in calls_where(g.node, lambda c: isinstance(c.func, ast.Attribute) and c.func.attr == '_SetEvaluationLimits', include_lambda=False)]
+            hits = cg.reach(f, eff)
+            n += 1
+            ctx.check(not hits, '%s.%s#no-default-resolution' % (k.name, name), 'does not reach _SetEvaluationLimits',
+                      '%s.%s resolves the default limits at configuration time (%s): they then depend on the counters at that moment, i.e. on the order of the configuration calls'
+                      % (k.name, name, ' > '.join(x.qualname for x in hits[0][0]) if hits else ''), f, hits[0][1] if hits else f.node)
+    # positive control: Terminated must reach it
+    t_ = ctx.func(AS + '.Terminated')
+    ctx.need(calls_where(t_.node, lambda c: isinstance(c.func, ast.Attribute) and c.func.attr == '_SetEvaluationLimits', include_lambda=False),
+             'positive control failed: Terminated no longer resolves the limits')
